@@ -6,6 +6,7 @@ import (
 	"os"
 	"path/filepath"
 	"sync"
+	"time"
 
 	"verif/harness/internal/gw"
 	"verif/harness/internal/s3c"
@@ -80,6 +81,12 @@ func (e *Env) Restart(i int) error {
 // Dead returns a crash description if any gateway died or logged a panic.
 func (e *Env) Dead() (int, *gw.Crash) {
 	for i, g := range e.GWs {
+		if g.Alive() {
+			// a panicking process may still be printing its goroutine dump
+			if g.ScrapeCrash() != nil {
+				g.WaitExit(5 * time.Second)
+			}
+		}
 		if !g.Alive() {
 			c := g.ScrapeCrash()
 			if c == nil {
